@@ -144,17 +144,60 @@ type c12Log struct {
 	root       verifmc.Hash
 	objs       map[string][]byte
 	tiles      []string // tile paths in a fixed order (data first, then hash)
-	evil       bool
+	evil       bool // special log (misplaced leaf or archival leaf): no stale-tile tampering
+	archival   bool // holds an RFC 6962 archival leaf
 	ends       map[int][]int // data tile number -> end offset of each entry
 	// client under test, bound to tr
-	tr     *c12Transport
-	client *Client
+	tr          *c12Transport
+	client      *Client // AllowRFC6962ArchivalLeafs unset
+	clientAllow *Client // AllowRFC6962ArchivalLeafs set
+}
+
+func (l *c12Log) cl(allow bool) *Client {
+	if allow {
+		return l.clientAllow
+	}
+	return l.client
+}
+
+// An RFC 6962 archival leaf (no leaf_index extension, empty CtExtensions) is
+// represented in the ground truth by Index == -1. The reference encoders always
+// write the 10-byte extension block (length 8 + leaf_index extension); the
+// archival encodings replace it with an empty vector by plain byte slicing.
+func c12IsArchival(e *verifmc.RefEntry) bool { return e.Index < 0 }
+
+func c12ExtOffset(e *verifmc.RefEntry) int {
+	off := 8 + 2 + 3 + len(e.Cert)
+	if e.IsPrecert {
+		off += 32
+	}
+	return off
+}
+
+func c12TileLeaf(e *verifmc.RefEntry) []byte {
+	if !c12IsArchival(e) {
+		return e.TileLeaf()
+	}
+	c := *e
+	c.Index = 0
+	b, off := c.TileLeaf(), c12ExtOffset(e)
+	return append(append(append([]byte{}, b[:off]...), 0, 0), b[off+10:]...)
+}
+
+func c12MerkleLeaf(e *verifmc.RefEntry) []byte {
+	if !c12IsArchival(e) {
+		return e.MerkleTreeLeaf()
+	}
+	c := *e
+	c.Index = 0
+	b := c.MerkleTreeLeaf()
+	return append(append([]byte{}, b[:len(b)-10]...), 0, 0)
 }
 
 func c12DataTile(entries []verifmc.RefEntry, N, W int) []byte {
 	var b []byte
 	for j := 0; j < W; j++ {
-		b = append(b, entries[N*256+j].TileLeaf()...)
+		b = append(b, c12TileLeaf(&entries[N*256+j])...)
 	}
 	return b
 }
@@ -190,8 +233,9 @@ func c12SigLine(k *c12Key, sigName string, n int64, root verifmc.Hash, ts int64)
 	return []byte("— " + sigName + " " + base64.StdEncoding.EncodeToString(blob) + "\n")
 }
 
-// log returns (building once) the log of the first n super-log entries; a
-// non-empty evil "p=q" places a copy of leaf q (leaf_index q) at position p.
+// log returns (building once) the log of the first n super-log entries; suffix
+// "/evilP=Q" places a copy of leaf Q (leaf_index Q) at position P, suffix
+// "/archP" turns the leaf at position P into an RFC 6962 archival leaf.
 func (w *c12World) log(n int, evil string) *c12Log {
 	id := fmt.Sprintf("%d%s", n, evil)
 	if l, ok := w.logs[id]; ok {
@@ -200,12 +244,20 @@ func (w *c12World) log(n int, evil string) *c12Log {
 	l := &c12Log{id: id, w: w, n: n, objs: map[string][]byte{}}
 	l.entries = append(l.entries, w.entries[:n]...)
 	l.leafHashes = append(l.leafHashes, w.leafHashes[:n]...)
-	if evil != "" {
+	if strings.HasPrefix(evil, "/evil") {
 		var p, q int
 		fmt.Sscanf(evil, "/evil%d=%d", &p, &q)
 		l.entries[p] = l.entries[q]
 		l.leafHashes[p] = l.leafHashes[q]
 		l.evil = true
+	} else if strings.HasPrefix(evil, "/arch") {
+		var p int
+		fmt.Sscanf(evil, "/arch%d", &p)
+		l.entries[p].Index = -1
+		l.leafHashes[p] = verifmc.LeafHash(c12MerkleLeaf(&l.entries[p]))
+		l.evil, l.archival = true, true
+	} else if evil != "" {
+		panic(verifmc.EngineError{Msg: "c12: bad log suffix " + evil})
 	}
 	l.root = verifmc.MTH(l.leafHashes)
 	var data, hash []string
@@ -227,17 +279,24 @@ func (w *c12World) log(n int, evil string) *c12Log {
 		l.objs["issuer/"+hex.EncodeToString(w.issuerFP[j][:])] = der
 	}
 	l.tr = &c12Transport{base: l.objs}
-	c, err := NewClient(&ClientConfig{
-		MonitoringPrefix: c12Prefix + "log" + fmt.Sprint(n) + "/",
-		PublicKey:        &w.key.priv.PublicKey,
-		HTTPClient:       &http.Client{Transport: l.tr},
-		UserAgent:        "verif-c12 (+https://verif.invalid)",
-		Timeout:          time.Hour,
-	})
-	if err != nil {
-		panic(verifmc.EngineError{Msg: "c12: NewClient: " + err.Error()})
+	for _, allow := range []bool{false, true} {
+		c, err := NewClient(&ClientConfig{
+			MonitoringPrefix:          c12Prefix + "log" + fmt.Sprint(n) + "/",
+			PublicKey:                 &w.key.priv.PublicKey,
+			AllowRFC6962ArchivalLeafs: allow,
+			HTTPClient:                &http.Client{Transport: l.tr},
+			UserAgent:                 "verif-c12 (+https://verif.invalid)",
+			Timeout:                   time.Hour,
+		})
+		if err != nil {
+			panic(verifmc.EngineError{Msg: "c12: NewClient: " + err.Error()})
+		}
+		if allow {
+			l.clientAllow = c
+		} else {
+			l.client = c
+		}
 	}
-	l.client = c
 	w.logs[id] = l
 	return l
 }
@@ -324,17 +383,26 @@ func c12ExtLeafIndex(ext []byte) (int64, bool) {
 	return 0, false
 }
 
-// sct returns the authentic SCT of super-log entry i signed by key k.
-func (w *c12World) sct(k *c12Key, i int) *c12SCT {
-	e := &w.entries[i]
-	ck := fmt.Sprintf("%x/%d", k.logID[:4], i)
+// sctFor returns the SCT key k would have issued for committed leaf e: signed
+// over its MerkleTreeLeaf, carrying its leaf_index extension (none if archival).
+func (w *c12World) sctFor(k *c12Key, e *verifmc.RefEntry) *c12SCT {
+	leaf := c12MerkleLeaf(e)
+	h := sha256.Sum256(leaf)
+	ck := fmt.Sprintf("%x/%x", k.logID[:4], h[:12])
 	sig, ok := w.scts[ck]
 	if !ok {
-		sig = k.sign(e.MerkleTreeLeaf())
+		sig = k.sign(leaf)
 		w.scts[ck] = sig
 	}
-	return &c12SCT{Version: 0, LogID: k.logID, Ts: uint64(e.Timestamp), Ext: c12IndexExt(e.Index), HashAlg: 4, SigAlg: 3, Sig: sig}
+	s := &c12SCT{Version: 0, LogID: k.logID, Ts: uint64(e.Timestamp), HashAlg: 4, SigAlg: 3, Sig: sig}
+	if !c12IsArchival(e) {
+		s.Ext = c12IndexExt(e.Index)
+	}
+	return s
 }
+
+// sct returns the authentic SCT of the leaf committed at position pos of l.
+func (l *c12Log) sct(k *c12Key, pos int) *c12SCT { return l.w.sctFor(k, &l.entries[pos]) }
 
 // ---------------------------------------------------------------------------
 // in-memory transport: 200 with the object, else 404. Never an error, never a
